@@ -281,7 +281,9 @@ def main():
         'wall_s': round(wall, 2),
         'violations': len(final_viol),
     }
-    json.dump(ev, open(os.path.join(HERE, 'evidence', '%s.json' % prop), 'w'), indent=1, default=str)
+    evdir = os.environ.get('VERIF_EVIDENCE_DIR', os.path.join(HERE, 'evidence'))
+    os.makedirs(evdir, exist_ok=True)
+    json.dump(ev, open(os.path.join(evdir, '%s.json' % prop), 'w'), indent=1, default=str)
     for l in lines:
         print(l)
     print('%s: %d obligations, %d discharged (%s), %d undecided, %d violations, level=%s, %.1fs'
